@@ -1,6 +1,7 @@
 (* C08 - The header digest makes every change to the document evident.
 
-   Model: Digest/Envelope.v (validate, calculate, with_doc) over Digest/Content.v (content, norm, wf).
+   Model: Digest/Envelope.v (validate, calculate, with_doc) over Digest/Content.v (content, norm, wf);
+   Digest/Link.v ties `content` to the JSON values of the real canonicaliser of C07 (Json/C14n.v).
 
    READ THIS FIRST - what "the document" is.  `content` is the logical content of the PARSED
    document (what json.Marshal prints for the Go value the envelope holds), not the bytes that
@@ -12,18 +13,35 @@
    That parsing is otherwise lossless (every schema-defined member of the text arrives in the
    parsed value and is printed again) is NOT proved: struct marshalling is reflection-driven; it
    is established per document by the sweep of tools/props/c08.py, which is search, not proof.
+   This is the ONLY unproved link left between the theorems `..._real` below and the Go code
+   (besides the differential ties of the models themselves).
 
-   Premises that appear in every statement:
-     canon_norm, canon_inj   canonical JSON is invariant under, and injective up to, `norm`
-                             (member order, null members) - the theorems of C07, here hypotheses;
-     wf                      no duplicate member names (true of whatever encoding/json prints).
+   Two families of statements.
+   (1) generic in the canonicaliser `canon`, with the premises
+         canon_invariant, canon_injective   canonical JSON is invariant under, and injective up to,
+                                            `norm` (member order, null members)
+         wf                                 no duplicate member names
+       (calculated_validates ... recalculated_digest_differs).
+   (2) `..._real`: the same statements for canon := real_canon, the canonical form C07's model of
+       c14n.CanonicalJSON computes (real_canon_is_c14n_canon: it IS C14n.canon's answer on every
+       text that reads as the document).  The two premises are discharged - they are theorems
+       (real_canon_invariant, real_canon_injective, from C07's print/parse round trip) on the domain
+         in_domain d   every string and member name is UTF-8 without U+FFFD (encodeString refuses
+                       anything else); every number text is canonical: an int64 as FormatInt prints
+                       it, or a float satisfying C07's float premise (float_okb) as
+                       Float.MarshalJSON prints it.
+       No canon premise and no wf premise is left (both sorts are the same stable sort, so
+       duplicate names do no harm); norm / wf correspond to C07's norm / dupfree
+       (norm_corresponds, wf_corresponds).
    There is NO hypothesis on the hash H: where one would be needed, the conclusion instead
    exhibits the collision.
    `structural` stands for all Validate methods of header, document and signatures (one boolean),
    `calc_doc` for the document's own Calculate. *)
 From Coq Require Import List Bool Strings.Byte String.
+From Verif Require Import Json.Json Json.C14n.
 From Verif Require Import Base.Wire Digest.Content Digest.ContentProofs Digest.Envelope Digest.Regime
-  Digest.EnvelopeProofs Digest.Toy Digest.ToyProofs.
+  Digest.EnvelopeProofs Digest.Toy Digest.ToyProofs Digest.Link.
+From Verif Require Digest.LinkProofs.
 Import ListNotations.
 
 Definition canon_invariant (canon : content -> bytes) := forall v, wf v -> canon v = canon (norm v).
@@ -106,6 +124,113 @@ Theorem recalculated_digest_differs :
 Proof. intros rest canon H structural calc_doc CI. exact (recalculated_digest_differs rest canon H structural calc_doc CI). Qed.
 Print Assumptions recalculated_digest_differs.
 
+(* ---------------------------------------------------------------------------------------------- *)
+(* The premises discharged: canon := real_canon, the canonical form of C07's model of c14n          *)
+(* ---------------------------------------------------------------------------------------------- *)
+
+(* real_canon d is what c14n.CanonicalJSON (C07's `canon`) answers on EVERY text that its reader
+   reads as the document - whatever the member order, whitespace, escapes of that text *)
+Theorem real_canon_is_c14n_canon :
+  forall (d : content) (t : bytes),
+    in_domain d = true -> C14n.parse t = Ok (to_json d) -> C14n.canon t = Ok (real_canon d).
+Proof. exact LinkProofs.real_canon_is_canon. Qed.
+Print Assumptions real_canon_is_c14n_canon.
+
+(* ... and every text the reader accepts with a good value (jgood: strings clean, floats
+   satisfying the float premise) is the text of a document of the domain *)
+Theorem every_good_text_is_a_document :
+  forall (t : bytes) (v : jv),
+    C14n.parse t = Ok v -> jgood v = true ->
+    in_domain (of_json v) = true /\ to_json (of_json v) = v /\ C14n.canon t = Ok (real_canon (of_json v)).
+Proof.
+  exact (fun t v P G => conj (proj2 (LinkProofs.of_json_good v G))
+                             (conj (proj1 (LinkProofs.of_json_good v G)) (proj2 (LinkProofs.real_canon_of_text t v P G)))).
+Qed.
+Print Assumptions every_good_text_is_a_document.
+
+(* C08's norm and wf are C07's norm and dupfree, through the translation (all documents) *)
+Theorem norm_corresponds : forall d : content, to_json (norm d) = Json.norm (to_json d).
+Proof. exact LinkProofs.to_json_norm. Qed.
+Print Assumptions norm_corresponds.
+
+Theorem wf_corresponds : forall d : content, wf d <-> dupfree (to_json d) = true.
+Proof. exact LinkProofs.wf_dupfree. Qed.
+Print Assumptions wf_corresponds.
+
+(* the translation loses nothing on the domain *)
+Theorem translation_is_injective :
+  forall d1 d2 : content, in_domain d1 = true -> in_domain d2 = true -> to_json d1 = to_json d2 -> d1 = d2.
+Proof. exact LinkProofs.to_json_inj. Qed.
+Print Assumptions translation_is_injective.
+
+(* the two premises, relativised to the domain, as theorems about the real canonical form *)
+Definition canon_invariant_on (dom : content -> bool) (canon : content -> bytes) :=
+  forall v, dom v = true -> canon v = canon (norm v).
+Definition canon_injective_on (dom : content -> bool) (canon : content -> bytes) :=
+  forall v1 v2, dom v1 = true -> dom v2 = true -> canon v1 = canon v2 -> norm v1 = norm v2.
+
+Theorem real_canon_invariant : canon_invariant_on in_domain real_canon.
+Proof. exact LinkProofs.real_canon_invariant. Qed.
+Print Assumptions real_canon_invariant.
+
+Theorem real_canon_injective : canon_injective_on in_domain real_canon.
+Proof. exact LinkProofs.real_canon_injective. Qed.
+Print Assumptions real_canon_injective.
+
+(* the canonical form of a document of the domain parses back (C07's reader) to its content *)
+Theorem real_canon_parses_back :
+  forall d : content, in_domain d = true -> C14n.parse (real_canon d) = Ok (to_json (norm d)).
+Proof. exact LinkProofs.real_canon_parses_back. Qed.
+Print Assumptions real_canon_parses_back.
+
+(* the C08 theorems with no premise on the canonicaliser *)
+Theorem reencoding_preserves_validity_real :
+  forall (rest : Type) (H : bytes -> bytes) (structural : envelope content rest -> bool)
+         (e : envelope content rest) (d' : content),
+    in_domain (e_doc e) = true -> in_domain d' = true -> norm d' = norm (e_doc e) ->
+    structural (with_doc e d') = structural e ->
+    validate content rest real_canon H structural e = Valid ->
+    validate content rest real_canon H structural (with_doc e d') = Valid.
+Proof. exact LinkProofs.reencoding_preserves_validity_real. Qed.
+Print Assumptions reencoding_preserves_validity_real.
+
+Theorem digest_tamper_evident_real :
+  forall (rest : Type) (H : bytes -> bytes) (structural : envelope content rest -> bool)
+         (e : envelope content rest) (d' : content),
+    in_domain (e_doc e) = true -> in_domain d' = true ->
+    validate content rest real_canon H structural e = Valid ->
+    validate content rest real_canon H structural (with_doc e d') = Valid ->
+    norm d' = norm (e_doc e) \/
+    (real_canon (e_doc e) <> real_canon d' /\ H (real_canon (e_doc e)) = H (real_canon d')).
+Proof. exact LinkProofs.digest_tamper_evident_real. Qed.
+Print Assumptions digest_tamper_evident_real.
+
+Theorem tampered_is_rejected_real :
+  forall (rest : Type) (H : bytes -> bytes) (structural : envelope content rest -> bool)
+         (e : envelope content rest) (d' : content),
+    in_domain (e_doc e) = true -> in_domain d' = true ->
+    validate content rest real_canon H structural e = Valid ->
+    norm d' <> norm (e_doc e) ->
+    H (real_canon (e_doc e)) <> H (real_canon d') ->
+    validate content rest real_canon H structural (with_doc e d') <> Valid /\
+    (structural (with_doc e d') = true ->
+     validate content rest real_canon H structural (with_doc e d') = ErrDigest).
+Proof. exact LinkProofs.tampered_is_rejected_real. Qed.
+Print Assumptions tampered_is_rejected_real.
+
+Theorem recalculated_digest_differs_real :
+  forall (rest : Type) (H : bytes -> bytes) (structural : envelope content rest -> bool)
+         (calc_doc : content -> option content)
+         (e : envelope content rest) (d' : content) (e1 : envelope content rest),
+    in_domain (e_doc e) = true -> in_domain (e_doc e1) = true ->
+    validate content rest real_canon H structural e = Valid ->
+    calculate content rest real_canon H calc_doc (with_doc e d') = Some e1 ->
+    norm (e_doc e1) <> norm (e_doc e) ->
+    e_dig e1 <> e_dig e \/
+    (real_canon (e_doc e) <> real_canon (e_doc e1) /\ H (real_canon (e_doc e)) = H (real_canon (e_doc e1))).
+Proof. exact LinkProofs.recalculated_digest_differs_real. Qed.
+Print Assumptions recalculated_digest_differs_real.
+
 (* The derived member: deleting `$regime` when it equals the supplier's tax country (and a regime
    is defined for it) leaves the parsed document - hence digest and validity - unchanged. *)
 Theorem regime_member_is_derived :
@@ -154,4 +279,96 @@ Example toy_run :
      toy_canon d_a <> toy_canon d_a_edited /\ H_const (toy_canon d_a) = H_const (toy_canon d_a_edited)).
 Proof.
   split; eexists; (split; [vm_compute; reflexivity|]); vm_compute; repeat split; try discriminate.
+Qed.
+
+(* ---- non-vacuity of the `_real` theorems: a concrete document in the domain (nested objects,
+   arrays, null members, a null array element, a negative float, a non-ASCII name) ---- *)
+Definition zoe : bytes := (bs "Zo" ++ [xc3; xab] ++ bs " ""x""")%list.
+Definition inv_a : content :=
+  CObj [(bs "type", CStr (bs "standard"));
+        (bs "lines", CArr [CObj [(bs "i", CNum (bs "1"));
+                                 (bs "item", CObj [(bs "price", CStr (bs "10.00"));
+                                                   (bs "name", CStr zoe);
+                                                   (bs "ref", CNull)]);
+                                 (bs "quantity", CStr (bs "2"))];
+                           CNull]);
+        (bs "coords", CObj [(bs "lon", CNum (bs "-3.7E0")); (bs "lat", CNum (bs "4.0E1"))]);
+        (bs "paid", CBool false);
+        (bs "notes", CNull);
+        (bs "tags", CArr []);
+        (bs "n", CNum (bs "-12"))].
+(* members reordered at two levels, null members removed here and added there *)
+Definition inv_a_reencoded : content :=
+  CObj [(bs "n", CNum (bs "-12"));
+        (bs "coords", CObj [(bs "lat", CNum (bs "4.0E1")); (bs "alt", CNull); (bs "lon", CNum (bs "-3.7E0"))]);
+        (bs "tags", CArr []);
+        (bs "lines", CArr [CObj [(bs "quantity", CStr (bs "2"));
+                                 (bs "item", CObj [(bs "name", CStr zoe);
+                                                   (bs "price", CStr (bs "10.00"))]);
+                                 (bs "i", CNum (bs "1"))];
+                           CNull]);
+        (bs "type", CStr (bs "standard"));
+        (bs "paid", CBool false);
+        (bs "zz", CNull)].
+(* one price changed *)
+Definition inv_a_edited : content :=
+  CObj [(bs "type", CStr (bs "standard"));
+        (bs "lines", CArr [CObj [(bs "i", CNum (bs "1"));
+                                 (bs "item", CObj [(bs "price", CStr (bs "10.01"));
+                                                   (bs "name", CStr zoe);
+                                                   (bs "ref", CNull)]);
+                                 (bs "quantity", CStr (bs "2"))];
+                           CNull]);
+        (bs "coords", CObj [(bs "lon", CNum (bs "-3.7E0")); (bs "lat", CNum (bs "4.0E1"))]);
+        (bs "paid", CBool false);
+        (bs "notes", CNull);
+        (bs "tags", CArr []);
+        (bs "n", CNum (bs "-12"))].
+(* a text of inv_a as json.Marshal could print it (other number spellings, escapes, white space) *)
+Definition inv_a_text : bytes :=
+  (bs "{""type"":""standard"", ""lines"":[{""i"":1,""item"":{""price"":""10.00"",""name"":""Zo" ++ [xc3; xab] ++
+   bs " \u0022x\"""",""ref"":null},""quantity"":""2""},null], ""coords"":{""lon"":-3.7,""lat"":40.0}," ++
+   bs """paid"":false,""notes"":null,""tags"":[ ],""n"":-12}")%list.
+Definition inv_a_canonical : bytes :=
+  (bs "{""coords"":{""lat"":4.0E1,""lon"":-3.7E0},""lines"":[{""i"":1,""item"":{""name"":""Zo" ++ [xc3; xab] ++
+   bs " \""x\"""",""price"":""10.00""},""quantity"":""2""},null],""n"":-12,""paid"":false,""tags"":[],""type"":""standard""}")%list.
+
+Example real_run :
+  in_domain inv_a = true /\ in_domain inv_a_reencoded = true /\ in_domain inv_a_edited = true /\
+  (* the canonical form, and that it is C07's canon of a text of the document *)
+  real_canon inv_a = inv_a_canonical /\
+  C14n.parse inv_a_text = Ok (to_json inv_a) /\ C14n.canon inv_a_text = Ok (real_canon inv_a) /\
+  (* re-encoded: another document, same content, same canonical form *)
+  inv_a_reencoded <> inv_a /\ norm inv_a_reencoded = norm inv_a /\ real_canon inv_a_reencoded = real_canon inv_a /\
+  (* edited: other content, other canonical form *)
+  norm inv_a_edited <> norm inv_a /\ real_canon inv_a_edited <> real_canon inv_a /\
+  (* with an injective hash: calculated => valid; re-encoded => valid; edited => digest error *)
+  (exists e1, calculate content unit real_canon H_id Some (mkEnv tt None inv_a) = Some e1 /\
+     validate content unit real_canon H_id all_ok e1 = Valid /\
+     validate content unit real_canon H_id all_ok (with_doc e1 inv_a_reencoded) = Valid /\
+     validate content unit real_canon H_id all_ok (with_doc e1 inv_a_edited) = ErrDigest) /\
+  (* with a colliding hash the edit goes through, as the second disjunct of digest_tamper_evident_real says *)
+  (exists e1, calculate content unit real_canon H_const Some (mkEnv tt None inv_a) = Some e1 /\
+     validate content unit real_canon H_const all_ok (with_doc e1 inv_a_edited) = Valid).
+Proof.
+  do 11 (split; [vm_compute; first [reflexivity | discriminate]|]).
+  split; eexists; (split; [vm_compute; reflexivity|]); vm_compute; repeat split.
+Qed.
+
+(* the `_real` theorems applied to it, for an ARBITRARY hash H *)
+Example real_theorems_apply :
+  forall (H : bytes -> bytes) (e1 : envelope content unit),
+    calculate content unit real_canon H Some (mkEnv tt None inv_a) = Some e1 ->
+    validate content unit real_canon H all_ok e1 = Valid /\
+    validate content unit real_canon H all_ok (with_doc e1 inv_a_reencoded) = Valid /\
+    (H (real_canon inv_a) <> H (real_canon inv_a_edited) ->
+     validate content unit real_canon H all_ok (with_doc e1 inv_a_edited) = ErrDigest).
+Proof.
+  intros H e1 C.
+  assert (V : validate content unit real_canon H all_ok e1 = Valid)
+    by (apply (calculated_validates unit real_canon H all_ok Some _ e1 C); reflexivity).
+  injection C as <-. cbn [e_doc e_rest] in *.
+  split; [exact V|]. split.
+  - apply reencoding_preserves_validity_real; [vm_compute; reflexivity | vm_compute; reflexivity | vm_compute; reflexivity | reflexivity | exact V].
+  - intro NH. apply tampered_is_rejected_real; [vm_compute; reflexivity | vm_compute; reflexivity | exact V | vm_compute; discriminate | exact NH | reflexivity].
 Qed.
